@@ -11,8 +11,8 @@ THEOREMS = ['C08_value', 'C08_const', 'C08_noindex', 'C08_bounds', 'C08_mismatch
 ALLOWED_AXIOMS = []
 RULE = ('random valid nondegenerate extensions (3-5 D, any slice axis or none, canonical and widened classes, list / nested / '
         'None values) x image perturbations {exact, other in-plane extents, T+-1, V+-1, trailing dims dropped / added, S+-1, '
-        'slice axis relabelled, dim_info removed, slice row flipped / permuted / rescaled, row moved within / beyond the '
-        'tolerance} x keys (every key and a missing one) x indices {in range, one coordinate = extent, negative, too short, '
+        'slice axis relabelled, dim_info removed, slice row flipped / permuted / rescaled, 3x3 part transposed, row moved '
+        'within / beyond the tolerance}; affines mostly oblique (slice row != slice column) x keys (every key and a missing one) x indices {in range, one coordinate = extent, negative, too short, '
         'too long, None}; non-trivial = the key is in a varying class')
 TRUSTED_BASE = ['hand-written Gallina model coq/Ext/Model.v of get_meta / meta_valid / __getitem__ (tied by Ext/Corr.v check_lookup)',
                 'nibabel Nifti1Image / header (shape, dim_info slice, affine) is a contract: only img.shape, '
@@ -77,7 +77,7 @@ def expected(case):
 
 
 PERTS = ['exact'] * 6 + ['inplane', 'T+1', 'T-1', 'V+1', 'V-1', 'drop_trailing', 'add_trailing', 'S+1', 'S-1', 'relabel',
-                          'no_dim_info', 'flip_row', 'perm_rows', 'rescale_row', 'tiny', 'small']
+                          'no_dim_info', 'flip_row', 'perm_rows', 'rescale_row', 'tiny', 'small', 'transpose']
 
 
 def perturb(rng, E, pert):
@@ -108,6 +108,9 @@ def perturb(rng, E, pert):
         img['aff'][sd], img['aff'][o] = img['aff'][o], img['aff'][sd]
     elif pert == 'rescale_row' and sd is not None:
         img['aff'][sd] = [2.0 * x for x in img['aff'][sd][:3]] + img['aff'][sd][3:]
+    elif pert == 'transpose':
+        a = img['aff']
+        img['aff'] = [[a[j][i] for j in range(3)] + [a[i][3]] for i in range(3)] + [a[3]]
     elif pert in ('tiny', 'small') and sd is not None:
         j = rng.randrange(3)
         img['aff'][sd][j] += (2.0 ** -23 if pert == 'tiny' else 2.0 ** -12) * rng.choice([1, -1])
@@ -137,7 +140,9 @@ def gen_cases(rng, tier):
     n_ext = 130 if tier == 'quick' else 1200
     cases = []
     for _ in range(n_ext):
-        E = X.gen_ext(rng, tier, nkeys=rng.randint(1, 4), widen=rng.choice([0.0, 0.4]))
+        E = X.gen_ext(rng, tier, nkeys=rng.randint(1, 4), widen=rng.choice([0.0, 0.4]),
+                      aff=X.gen_affine(rng, rng.choice(['dense', 'dense', 'perm', 'diag'])),
+                      patterns=X.PATTERNS[1:9] if rng.random() < 0.8 else None)
         pert = rng.choice(PERTS)
         img = perturb(rng, E, pert)
         keys = [k for k, _, _ in E['entries']] + ['NoSuchKey']
